@@ -429,6 +429,7 @@ func genC14Router(rng *Rng, sc *Scenario) {
 	})
 	sc.Options.StrictSlash = false
 	sc.Options.EncodedPath = false // (the key is then built from the escaped path: normalisation is C11's business)
+	sc.Options.Intercept = ""     // (every request is then resolved, and cached, as another path)
 	n := rng.Range(4, 24)
 	var cl Client
 	var prev []Req
@@ -461,6 +462,7 @@ func genC14RouterConc(rng *Rng, sc *Scenario) {
 	})
 	sc.Options.StrictSlash = false
 	sc.Options.EncodedPath = false
+	sc.Options.Intercept = ""
 	sc.Options.Capacity = 1000 // nothing may be evicted here: "present after the request" must hold with other requests in flight
 	n := rng.Range(2, 3)
 	total := 0
